@@ -113,7 +113,7 @@ static void capture_report(void *report) {
 			uintptr_t a = (uintptr_t)(start ? (void *)start : addr0);
 			if (a >= g_lib_lo && a < g_lib_hi) snprintf(loc, sizeof loc, "loc=global:lib+0x%lx", (unsigned long)(a - g_lib_lo));
 			else snprintf(loc, sizeof loc, "loc=global:foreign");
-		} else if (type && !strcmp(type, "heap")) snprintf(loc, sizeof loc, "loc=heap(size=%lu,off=%lu)", size, (unsigned long)((uintptr_t)addr0 - start));
+		} else if (type && !strcmp(type, "heap")) snprintf(loc, sizeof loc, "loc=heap(size=%lu)", size); // the offset varies with the plan; the block size names the object
 		else if (type) snprintf(loc, sizeof loc, "loc=%s", type);
 	} else if ((uintptr_t)addr0 >= g_lib_lo && (uintptr_t)addr0 < g_lib_hi) snprintf(loc, sizeof loc, "loc=global:lib+0x%lx", (unsigned long)((uintptr_t)addr0 - g_lib_lo));
 	// order the two accesses canonically (by pc) so the signature does not depend on which thread came second
